@@ -3,9 +3,9 @@ package main
 // Thorough tier, supporting evidence for the "one exported method = one atomic step" reading of the
 // model: this command is built a second time with the Go race detector, the cases with a concurrent
 // phase are run again in that binary, and every report of the detector is turned into an oracle
-// failure (key data-race; key verify-race for the one race that is known: two overlapping
-// Pool.Verify calls, which the ordinary phases avoid by serialising Verify among themselves and
-// which the -race binary provokes on purpose at the very end).
+// failure (key data-race). At the very end the binary provokes overlapping Pool.Verify calls for
+// payers that are not cached yet: before e6b4f6b Verify filled the balance cache under the read lock
+// (fatal "concurrent map writes"); a report there is the regression of that defect (key verify-race).
 
 import (
 	"fmt"
@@ -92,11 +92,7 @@ func raceRun(o *hx.Out, f *hx.Flags) {
 	blocks := strings.Split(before, "WARNING: DATA RACE")[1:]
 	o.Add("race:reports-in-phases", len(blocks))
 	for _, b := range blocks {
-		if isVerifyRace(b) {
-			o.Fail("verify-race", -1, "race detector, concurrent phase: %s", firstFrames(b))
-		} else {
-			o.Fail("data-race", -1, "race detector, concurrent phase: %s", firstFrames(b))
-		}
+		o.Fail("data-race", -1, "race detector, concurrent phase: %s", firstFrames(b))
 	}
 	vv := strings.Split(afterMarker, "WARNING: DATA RACE")[1:]
 	o.Add("race:reports-verify-verify", len(vv))
@@ -108,8 +104,8 @@ func raceRun(o *hx.Out, f *hx.Flags) {
 		}
 	}
 	if len(vv) > other || strings.Contains(afterMarker, "fatal error: concurrent map") {
-		o.Fail("verify-race", -1, "two overlapping Pool.Verify calls for payers that are not cached yet: Verify holds only the read lock "+
-			"and checkTxConflicts (mem_pool.go:651) writes mp.fees; %d reports of the race detector, e.g. %s", len(vv)-other, firstFrames(strings.Join(vv, " ")))
+		o.Fail("verify-race", -1, "overlapping Pool.Verify calls for payers that are not cached yet race on mp.fees (regression of e6b4f6b: "+
+			"Verify must hold the write lock, checkTxConflicts fills the balance cache); %d reports of the race detector, e.g. %s", len(vv)-other, firstFrames(strings.Join(vv, " ")))
 	}
 	if runErr != nil && !strings.Contains(log, "fatal error: concurrent map") && len(blocks)+len(vv) == 0 {
 		o.Fail("race-run", -1, "the -race binary failed: %v: %s", runErr, tailOf(log, 400))
